@@ -9,6 +9,9 @@ Attr == [
   b  |-> [prevs |-> {"r"},      lc |-> 1, sig |-> TRUE,  wf |-> TRUE ],   \* sibling of a
   c  |-> [prevs |-> {"a", "b"}, lc |-> 2, sig |-> TRUE,  wf |-> TRUE ],   \* joins a and b
   d  |-> [prevs |-> {"c"},      lc |-> 3, sig |-> TRUE,  wf |-> TRUE ],
+  e  |-> [prevs |-> {"a"},      lc |-> 2, sig |-> TRUE,  wf |-> TRUE ],   \* plain chain r - a - e - f
+  f  |-> [prevs |-> {"e"},      lc |-> 3, sig |-> TRUE,  wf |-> TRUE ],
+  s  |-> [prevs |-> {"r"},      lc |-> 1, sig |-> TRUE,  wf |-> TRUE ],   \* valid; declares the same payload hash as a
   x  |-> [prevs |-> {"r"},      lc |-> 2, sig |-> TRUE,  wf |-> TRUE ],   \* clock too high
   y  |-> [prevs |-> {"a", "b"}, lc |-> 1, sig |-> TRUE,  wf |-> TRUE ],   \* clock too low
   r2 |-> [prevs |-> {},         lc |-> 0, sig |-> TRUE,  wf |-> TRUE ],   \* second root
